@@ -519,6 +519,14 @@ theorem runActions_cons_notdone {env : Env} {a : Action} {rest : List Action} {f
   | done => exact absurd hoc h
   | _ => simp only [runActions, hoc]
 
+theorem runActions_cons_done_inv {env : Env} {a : Action} {rest : List Action} {fs : FS} {st : MState}
+    {ans : List Str} (h : (runActions env (a :: rest) fs st ans).oc = .done) :
+    (step env a fs st ans).oc = .done := by
+  apply Classical.byContradiction
+  intro hd
+  rw [runActions_cons_notdone hd] at h
+  exact hd h
+
 /-- Per-file safety, for any coherent starting state: a node that differs after the loop was written by
     a REPLACE at some index `k`, reached with all of `acts.take k` completed, at `m.filename`, with the
     rewriter's output on the content the file had when its processing began. -/
@@ -732,6 +740,133 @@ theorem runActions_nodes (env : Env) :
       · rw [h]; exact h1
       · exact Or.inr h
     · rw [runActions_cons_notdone hd]; exact h1
+
+/-! ### Laziness: the rewriter runs at most once per file -/
+
+def Event.isRewrite : Event → Bool
+  | .rewrite _ => true
+  | _ => false
+
+/-- number of rewriter invocations in an event list -/
+def rewrites (ev : List Event) : Nat := ev.countP Event.isRewrite
+
+/-- how many rewriter invocations the Modifier may still cause -/
+def budget (st : MState) : Nat := if st.out.isSome then 0 else 1
+
+@[simp] theorem rewrites_nil : rewrites [] = 0 := rfl
+
+theorem rewrites_append (a b : List Event) : rewrites (a ++ b) = rewrites a + rewrites b := by
+  simp [rewrites, List.countP_append]
+
+theorem getInput_ev {env : Env} {fs : FS} {st st1 : MState} {c : Content} {ev : List Event}
+    (h : getInput env fs st = .ok (st1, c, ev)) : rewrites ev = 0 := by
+  unfold getInput at h
+  split at h
+  · simp at h; rcases h with ⟨_, _, rfl⟩; rfl
+  · split at h
+    · simp at h
+    · split at h
+      · simp at h; rcases h with ⟨_, _, rfl⟩; simp [rewrites, Event.isRewrite]
+      · simp at h
+
+theorem getOutput_ev_ok {env : Env} {fs : FS} {st st1 : MState} {o : Content} {ev : List Event}
+    (h : getOutput env fs st = .ok (st1, o, ev)) : rewrites ev = budget st ∧ budget st1 = 0 := by
+  have hout := (getOutput_ok h).2.1
+  refine ⟨?_, by simp [budget, hout]⟩
+  unfold getOutput at h
+  split at h
+  · rename_i o' ho
+    simp at h; rcases h with ⟨_, _, rfl⟩; simp [budget, ho]
+  · rename_i hn
+    split at h
+    · simp at h
+    · rename_i st2 c ev2 hi
+      split at h
+      · simp at h
+      · simp at h
+        rcases h with ⟨_, _, rfl⟩
+        rw [rewrites_append, getInput_ev hi]
+        simp [rewrites, Event.isRewrite, budget, hn]
+
+theorem getOutput_ev_err {env : Env} {fs : FS} {st : MState} {e : ErrKind} {ev : List Event}
+    (h : getOutput env fs st = .error (e, ev)) : rewrites ev ≤ budget st := by
+  unfold getOutput at h
+  split at h
+  · simp at h
+  · rename_i hn
+    split at h
+    · simp at h; rcases h with ⟨_, rfl⟩; simp
+    · rename_i st2 c ev2 hi
+      split at h
+      · simp at h
+        rcases h with ⟨_, rfl⟩
+        rw [rewrites_append, getInput_ev hi]
+        simp [rewrites, Event.isRewrite, budget, hn]
+      · simp at h
+
+theorem step_out_ev (env : Env) (a : Action) (fs : FS) (st : MState) (ans : List Str)
+    (ha : a = .print ∨ a = .diff ∨ a = .exec ∨ a = .replace) {st1 : MState} {o : Content} {ev : List Event}
+    (h1 : getOutput env fs st = .ok (st1, o, ev)) :
+    ∃ x, Event.isRewrite x = false ∧ (step env a fs st ans).ev = ev ++ [x] := by
+  rcases ha with h | h | h | h <;> subst h <;> simp only [step, withOutput, h1] <;> exact ⟨_, rfl, rfl⟩
+
+theorem step_simple_ev (env : Env) (a : Action) (fs : FS) (st : MState) (ans : List Str)
+    (ha : a = .exit1 ∨ (∃ n, a = .query n) ∨ a = .symlink .error ∨ a = .symlink .skip ∨ a = .symlink .replace) :
+    rewrites (step env a fs st ans).ev = 0 := by
+  rcases ha with h | ⟨n, h⟩ | h | h | h <;> subst h <;> simp only [step]
+  · rfl
+  · split
+    · rfl
+    · split <;> rfl
+  · split <;> rfl
+  · split <;> rfl
+  · rfl
+
+/-- One action uses at most the remaining budget, and leaves what it did not use. -/
+theorem step_rewrites (env : Env) (a : Action) (fs : FS) (st : MState) (ans : List Str) :
+    rewrites (step env a fs st ans).ev +
+      (if (step env a fs st ans).oc = .done then budget (step env a fs st ans).st else 0) ≤ budget st := by
+  rcases action_cases a with ha | ha | ha | ha
+  · rcases step_out_cases env a fs st ans ha with ⟨e, ev, h1, h2⟩ | ⟨st1, o, ev, h1, _, hst, _, hoc⟩
+    · rw [h2]; simpa using getOutput_ev_err h1
+    · obtain ⟨h3, h4⟩ := getOutput_ev_ok h1
+      obtain ⟨x, hx, hev⟩ := step_out_ev env a fs st ans ha h1
+      rw [hev, hoc, hst, rewrites_append, h3, h4]
+      simp [rewrites, hx]
+  · subst ha
+    rcases step_ifchanged_cases env fs st ans with ⟨e, ev, h1, h2⟩ | ⟨st1, o, ev, h1, hrest⟩
+    · rw [h2]; simpa using getOutput_ev_err h1
+    · obtain ⟨h3, h4⟩ := getOutput_ev_ok h1
+      rcases hrest with ⟨e, _, h2⟩ | ⟨st2, c, ev2, hI, h2⟩
+      · rw [h2]; simp [h3]
+      · rw [h2]
+        have h5 : budget st2 = 0 := by
+          have := (getInput_ok hI).2.1
+          simp only [budget, this] at h4 ⊢; exact h4
+        simp only [rewrites_append, getInput_ev hI, h3, h5]
+        split <;> simp
+  · obtain ⟨_, h2⟩ := step_simple env a fs st ans ha
+    rw [step_simple_ev env a fs st ans ha, h2]
+    split <;> simp
+  · subst ha
+    rw [step_follow]
+    by_cases hl : isLink fs st.cur = true <;> simp [budget, hl]
+
+theorem runActions_rewrites (env : Env) :
+    ∀ (acts : List Action) (fs : FS) (st : MState) (ans : List Str),
+    rewrites (runActions env acts fs st ans).ev ≤ budget st
+  | [], fs, st, ans => by simp
+  | a :: rest, fs, st, ans => by
+    have hs := step_rewrites env a fs st ans
+    by_cases hd : (step env a fs st ans).oc = .done
+    · rw [runActions_cons_done hd]
+      simp only [rewrites_append]
+      have ih := runActions_rewrites env rest (step env a fs st ans).fs (step env a fs st ans).st (step env a fs st ans).ans
+      simp only [hd, if_true] at hs
+      omega
+    · rw [runActions_cons_notdone hd]
+      simp only [hd, if_false] at hs
+      omega
 
 /-! ### The loop over files -/
 
